@@ -108,3 +108,63 @@ def size_source(F):
             if n["pat"]["name"] == "buf":
                 out["buf_defs"].append(n)
     return out
+
+
+def payload_buffer(F, fn):
+    """Role-based (name-independent) description of how `fn` obtains an event's payload:
+       code := reader.read_u8()?; size := <table>[code as usize]...get(); buf := vec![0; size]; reader.read_exact(&mut buf)?
+    returns dict(ok, table, problems)"""
+    b = F.body(fn)
+    out = {"ok": False, "table": None, "problems": []}
+    if b is None:
+        out["problems"].append("function not found")
+        return out
+    root = b["tir"]["value"]
+    pids = {p.get("id"): p.get("name") for p in b["tir"]["params"] if p.get("k") == "Bind"}
+    lets = {}
+    for n in tir.walk(root):
+        if n.get("k") == "Let" and n["pat"].get("k") == "Bind":
+            lets.setdefault(n["pat"]["id"], n)
+
+    def local_id(e):
+        e = strip(e)
+        while e.get("k") == "Cast":
+            e = strip(e["e"])
+        return e.get("id") if e.get("k") == "Path" and e.get("res") == "local" else None
+
+    rx = [n for n in tir.walk(root) if n.get("k") == "MethodCall" and n["method"] == "read_exact" and local_id(n["recv"]) in pids]
+    if len(rx) != 1:
+        out["problems"].append("expected exactly one read_exact on the stream parameter, found %d" % len(rx))
+        return out
+    reader = local_id(rx[0]["recv"])
+    buf = lets.get(local_id(strip(rx[0]["args"][0])))
+    if buf is None or not tir.in_macro(buf["init"], "vec"):
+        out["problems"].append("read_exact target is not a `vec![0; n]` local")
+        return out
+    size_ids = [x.get("id") for x in tir.walk(buf["init"]) if x.get("k") == "Path" and x.get("res") == "local"]
+    if len(size_ids) != 1 or size_ids[0] not in lets:
+        out["problems"].append("buffer length is not a single let-bound local")
+        return out
+    size = lets[size_ids[0]]
+    idx = [x for x in tir.walk(size["init"]) if x.get("k") == "Index"]
+    calls = [(x.get("resolved") or x.get("path") or "") for x in tir.walk(size["init"]) if x.get("k") in ("Call", "MethodCall")]
+    if any(c.endswith("::size") or "size_of" in c for c in calls):
+        out["problems"].append("buffer length depends on a size() function")
+    if len(idx) != 1:
+        out["problems"].append("buffer length is not one lookup in the payload-size table")
+        return out
+    out["table"] = place(idx[0]["base"])
+    code = lets.get(local_id(idx[0]["index"]))
+    if code is None:
+        out["problems"].append("table index is not a let-bound local")
+        return out
+    ci = code["init"]
+    c0 = strip(ci["e"]) if ci.get("k") == "Try" else {}
+    if not (c0.get("k") == "MethodCall" and c0["method"] == "read_u8" and local_id(c0["recv"]) == reader):
+        out["problems"].append("the table index is not the raw code byte read from the stream")
+    if not any(c.endswith("::get") for c in calls):
+        out["problems"].append("table entry is not unwrapped with NonZero::get")
+    out["ok"] = not out["problems"] and (out["table"] or "").endswith("payload_sizes")
+    if not (out["table"] or "").endswith("payload_sizes"):
+        out["problems"].append("size looked up in `%s`, not the file's payload-size table" % out["table"])
+    return out
